@@ -130,6 +130,23 @@ class RowsEval:
             if i % 5 == 4: row["nf"] = float("nan")
             yield row
 
+class WideEval:
+    """A class evaluator whose rows carry a long pseudo-random string, to get records (and logs) far beyond 64 KiB."""
+    def __init__(self, width, rows=1):
+        self._width, self._rows = width, rows
+    @property
+    def params(self):
+        return {"width": self._width, "rows": self._rows}
+    def evaluate(self, environment, learner):
+        import hashlib
+        n = sum(1 for _ in environment.read())
+        for i in range(self._rows):
+            h, parts, size = ("%d/%d/%d" % (self._width, i, n)).encode(), [], 0
+            while size < self._width:
+                h = hashlib.sha256(h).hexdigest().encode()
+                parts.append(h.decode()); size += 64
+            yield {"reward": (i + 1) / (self._rows + 1), "blob": "".join(parts)[:self._width]}
+
 # ------------------------------------------------------------------------------------------------ recorder wrappers
 class RecEnv:
     def __init__(self, tag, inner):
@@ -153,12 +170,17 @@ class RecLearner:
         return self.inner.learn(context, action, reward, probability, **kwargs)
 
 class RecEvaluator:
+    calls = 0            # evaluations started in this process
+    kill_after = None    # real-kill runs: the process dies (os._exit, no cleanup) when evaluation number kill_after+1 starts
     def __init__(self, tag, inner, side_path):
         self.tag, self.inner, self.side_path = tag, inner, side_path
     @property
     def params(self):
         return dict(SafeEvaluator(self.inner).params)
     def evaluate(self, environment, learner):
+        if RecEvaluator.kill_after is not None and RecEvaluator.calls >= RecEvaluator.kill_after:
+            os._exit(17)
+        RecEvaluator.calls += 1
         line = ("%s %s %s\n" % (getattr(environment, "tag", "?"), getattr(learner, "tag", "?"), self.tag)).encode()
         fd = os.open(self.side_path, os.O_WRONLY | os.O_APPEND | os.O_CREAT, 0o600)
         try:
@@ -212,6 +234,7 @@ def make_val(d):
     if k == "seq": return SequentialCB(record=list(d.get("record", ["reward"])), learn=d.get("learn", "on"), eval=d.get("eval", "on"), seed=d.get("seed"))
     if k == "func": return summary_eval
     if k == "rows": return RowsEval(d.get("every", 2))
+    if k == "wide": return WideEval(d["width"], d.get("rows", 1))
     raise ValueError(k)
 
 def triple_indices(desc):
@@ -243,3 +266,20 @@ def build_args(desc, side_path):
         return (envs, lrns, vals), {"description": desc.get("description")}
     triples, descr = build_triples(desc, side_path)
     return (triples,), {"description": descr}
+
+# ------------------------------------------------------------------------------------------------ child entry for real kills
+def main():
+    """python -m vlib.comps_c02 '<json: desc, path, side, kill_after>': run the experiment in THIS process and die without any
+    cleanup (os._exit) when evaluation number kill_after+1 starts. Exit code 17 = killed, 0 = the run finished before that."""
+    import sys, json
+    from coba.experiments import Experiment
+    from coba.context import NullLogger
+    a = json.loads(sys.argv[1])
+    CobaContext.search_paths = [os.getcwd()]
+    CobaContext.logger = NullLogger()
+    RecEvaluator.kill_after = a["kill_after"]
+    args, kwargs = build_args(a["desc"], a["side"])
+    Experiment(*args, **kwargs).run(a["path"], quiet=True, seed=a["desc"]["seed"], processes=1, maxchunksperchild=0, maxtasksperchunk=0)
+
+if __name__ == "__main__":
+    main()
